@@ -283,7 +283,9 @@ def main(argv):
         "verdict": "violated" if viol_new else ("inconclusive" if inconclusive else "held"),
         "repo": os.environ.get("VERIF_REPO", "/repo"),
     }
-    if not replay:
+    if not replay and os.environ.get("VERIF_ONLY_CLS") and not os.environ.get("VERIF_EVIDENCE_DIR"):
+        print("  (class-filtered development run: evidence file left untouched)")
+    elif not replay:
         edir = Path(os.environ.get("VERIF_EVIDENCE_DIR", HOME / "evidence"))
         edir.mkdir(parents=True, exist_ok=True)
         (edir / f"{pid}.json").write_text(json.dumps(ev, indent=1, default=str) + "\n")
